@@ -143,10 +143,14 @@ def builder_for(op):
             from vlib import envdef
             ENV_BUILDERS[key] = envdef.Builder(spec)
         b = ENV_BUILDERS[key]
-        b.fail_at, b.fail_exc = None, None
         if fault and fault['kind'] == 'func':
-            b.fail_at = fault['at'] % 2
-            b.fail_exc = EXC[fault['exc']]('injected')
+            # a builder of its own (threads may build both at once) over
+            # the same argument objects
+            from vlib import envdef
+            fb = envdef.Builder(spec, fault['at'] % 2,
+                                EXC[fault['exc']]('injected'))
+            fb.objs = b.objs
+            return fb
         return b
     cls = G.Builder if op['gen'] == 'c01' else mcgen.Builder
     if fault is None and not op.get('read'):
